@@ -1193,7 +1193,9 @@ class BaseGaussianState(BaseState):
 
             r = np.arccosh(tr / 2) / 2
 
-            if cov[0, 1] == 0.0 and cov[0, 0] <= cov[1, 1]:
+            if np.hypot(cov[0, 1], (cov[1, 1] - cov[0, 0]) / 2) <= 1e-12 * tr:
+                # no preferred quadrature (vacuum, coherent and thermal states): the phase is
+                # not defined, return 0 instead of the angle of a rounding error
                 phi = 0
             else:
                 # cov = [[cosh(2r) - sinh(2r) cos(phi), -sinh(2r) sin(phi)],
